@@ -812,7 +812,15 @@ pub fn gen_bundle(s: &mut Src<'_>, cfg: &GenCfg) -> GenBundle {
                         // make it match
                         plans[k].push(Plan::AnnounceCoin(m.clone()));
                     }
-                    plans[i].push(Plan::AssertCoinAnn(sha(&[&spends[k].coin_id, &m])));
+                    let id = sha(&[&spends[k].coin_id, &m]);
+                    if !careful && s.chance(36) {
+                        // the id of a COIN announcement asserted as a PUZZLE
+                        // announcement: the two kinds live in separate name spaces
+                        labels.push("announcement-id-asserted-under-the-other-kind".into());
+                        plans[i].push(Plan::AssertPuzzleAnn(id));
+                    } else {
+                        plans[i].push(Plan::AssertCoinAnn(id));
+                    }
                 }
                 5 => {
                     let k = s.below(n_spends);
@@ -820,7 +828,13 @@ pub fn gen_bundle(s: &mut Src<'_>, cfg: &GenCfg) -> GenBundle {
                     if careful || s.chance(150) {
                         plans[k].push(Plan::AnnouncePuzzle(m.clone()));
                     }
-                    plans[i].push(Plan::AssertPuzzleAnn(sha(&[&spends[k].puzzle_hash, &m])));
+                    let id = sha(&[&spends[k].puzzle_hash, &m]);
+                    if !careful && s.chance(36) {
+                        labels.push("announcement-id-asserted-under-the-other-kind".into());
+                        plans[i].push(Plan::AssertCoinAnn(id));
+                    } else {
+                        plans[i].push(Plan::AssertPuzzleAnn(id));
+                    }
                 }
                 6 => {
                     let id = if careful || s.chance(190) {
@@ -885,12 +899,23 @@ pub fn gen_bundle(s: &mut Src<'_>, cfg: &GenCfg) -> GenBundle {
                         continue;
                     }
                     let which = if careful { 0 } else { s.weighted(&[12, 2, 2, 1]) };
+                    // the same message more than once (messages are counted, not
+                    // just matched): all sends first, then all receives — for a
+                    // spend messaging itself that is S,S,R,R within one spend
+                    let copies = if s.chance(40) { 2 + s.below(2) } else { 1 };
+                    if copies > 1 {
+                        labels.push(if i == k { "message:repeated-self-message".into() } else { "message:repeated".into() });
+                    }
                     if which != 1 {
-                        plans[i].push(Plan::Send { mode, msg: msg.clone(), dst });
+                        for _ in 0..copies {
+                            plans[i].push(Plan::Send { mode, msg: msg.clone(), dst: dst.clone() });
+                        }
                     }
                     if which != 2 {
                         let m2 = if which == 3 { mode ^ 1 } else { mode };
-                        plans[k].push(Plan::Receive { mode: m2, msg, src });
+                        for _ in 0..copies {
+                            plans[k].push(Plan::Receive { mode: m2, msg: msg.clone(), src: src.clone() });
+                        }
                     }
                 }
                 9 => {
